@@ -9,10 +9,11 @@ CHECK = {
     "packages": ["./actor"],
     "harness": ["actor/zz_verif_c15.go"],
     "replace": [{"file": "actor/pools.go", "old": "const contextPoolSize = 8192", "new": "const contextPoolSize = 2"}],
-    "entries": [{"fn": P + "vC15_ask", "replay": "model-only"}],
+    "entries": [{"fn": P + "vC15_ask", "replay": "model-only"},
+                {"fn": P + "vC15_reuse", "replay": "model-only", "cases": {"api": [0, 1]}}],
     "opts": {"rounds": 3, "unwind": 3, "unwind_mode": "assume", "feasibility": False, "substitute": SUB},
     "stop": list(SUB.keys()),
-    "timeout_ms": {"quick": 400000, "thorough": 1800000},
+    "timeout_ms": {"quick": 900000, "thorough": 1800000},
     "explanation": "PID.Ask (local arm), ReceiveContext.build/Response, getContext, get/putResponseChannel/drainAnyChannel, doReceive/runTurn with the real UnboundedMailbox under solver-chosen interleavings; the timer is a harness thread, the handler replies with the asked tag, and a fourth thread plays a later Ask that takes a response channel from the pool.",
     "bounds": {"threads": "asker, timer, worker, later asker", "rounds": 3, "pools": "context/response channel pools of capacity 2"},
 }
